@@ -1,0 +1,261 @@
+//go:build verif
+
+package prometheus
+
+// Contracts for the deductive verifier in /verif (comment-only).
+//
+// C17: what the reporter hands to the Prometheus client, and that a
+// registration conflict never crashes.  The Prometheus client itself is a
+// dependency: its constructors and With() are used through ASSUMED contracts
+// (extern func, listed in the evidence), calls on its interfaces are trace
+// events.
+
+//@ extern interface prometheus.Registerer
+//@ extern interface prometheus.Counter
+//@ extern interface prometheus.Gauge
+//@ extern interface prometheus.Observer
+//@ extern interface tally.Buckets
+
+//@ extern func github.com/prometheus/client_golang/prometheus.NewCounterVec
+//@   allocs
+//@   ensures result != nil && fresh(result)
+//@   ensures quiet()
+//@ extern func github.com/prometheus/client_golang/prometheus.NewGaugeVec
+//@   allocs
+//@   ensures result != nil && fresh(result)
+//@   ensures quiet()
+//@ extern func github.com/prometheus/client_golang/prometheus.NewSummaryVec
+//@   allocs
+//@   ensures result != nil && fresh(result)
+//@   ensures quiet()
+//@ extern func github.com/prometheus/client_golang/prometheus.NewHistogramVec
+//@   allocs
+//@   ensures result != nil && fresh(result)
+//@   ensures quiet()
+
+// With dereferences its receiver: a nil vector is a crash.
+//@ extern func (*github.com/prometheus/client_golang/prometheus.CounterVec).With
+//@   allocs
+//@   requires @vector_not_nil v != nil
+//@   ensures result != nil
+//@   ensures quiet()
+//@ extern func (*github.com/prometheus/client_golang/prometheus.GaugeVec).With
+//@   allocs
+//@   requires @vector_not_nil v != nil
+//@   ensures result != nil
+//@   ensures quiet()
+//@ extern func (*github.com/prometheus/client_golang/prometheus.SummaryVec).With
+//@   allocs
+//@   requires @vector_not_nil v != nil
+//@   ensures result != nil
+//@   ensures quiet()
+//@ extern func (*github.com/prometheus/client_golang/prometheus.HistogramVec).With
+//@   allocs
+//@   requires @vector_not_nil v != nil
+//@   ensures result != nil
+//@   ensures quiet()
+
+//@ pred quiet() { len(calls) == old(len(calls)) }
+//@ pred one_more() { len(calls) == old(len(calls)) + 1 && (forall j int :: 0 <= j && j < old(len(calls)) ==> calls[j] == old(calls[j])) }
+//@ pred secs(d time.Duration) { float64(d) / float64(time.Second) }
+//@ pred repWF(r *reporter) { r != nil && r.registerer != nil && r.onRegisterError != nil }
+
+// The by-id caches: every stored vector is usable, and a timer slot holds
+// exactly one of the two flavours.
+//@ initonly reporter.registerer, reporter.gatherer, reporter.timerType, reporter.objectives, reporter.buckets, reporter.onRegisterError, reporter.counters, reporter.gauges, reporter.timers
+//@ initonly promTimerVec.summary, promTimerVec.histogram
+
+//@ lock reporter.RWMutex self r protects counters, gauges, timers
+//@   property C17
+//@   inv @cached_counter_vectors_usable r.counters != nil && (forall id metricID :: id in r.counters ==> r.counters[id] != nil)
+//@   inv @cached_gauge_vectors_usable r.gauges != nil && (forall id metricID :: id in r.gauges ==> r.gauges[id] != nil)
+//@   inv @timer_slot_holds_exactly_one_flavour r.timers != nil && (forall id metricID :: id in r.timers ==> r.timers[id] != nil && ((r.timers[id].summary != nil) != (r.timers[id].histogram != nil)))
+//@   guar @registered_vectors_never_replaced (forall id metricID :: old(id in r.counters) ==> id in r.counters && r.counters[id] == old(r.counters[id])) && (forall id metricID :: old(id in r.gauges) ==> id in r.gauges && r.gauges[id] == old(r.gauges[id])) && (forall id metricID :: old(id in r.timers) ==> id in r.timers && r.timers[id] == old(r.timers[id]))
+
+//@ func canonicalMetricID
+//@   property C17
+//@   allocs
+//@   ensures @quiet quiet()
+//@   loop 1 invariant @set_allocated keySet != nil && 0 <= rangeindex+1 && rangeindex+1 <= len(tagKeys)
+
+//@ func keysFromMap
+//@   property C17
+//@   allocs
+//@   ensures @one_key_per_entry len(result) == len(m)
+//@   ensures @quiet quiet()
+//@   loop 1 invariant @filled_so_far i == seencount() && len(labelKeys) == len(m)
+
+//@ func (*reporter).counterVec
+//@   property C17
+//@   emits
+//@   allocs
+//@   requires repWF(r)
+//@   acquires r.RWMutex
+//@   modifies r.counters
+//@   ensures @vector_or_error (result1 == nil) == (result0 != nil)
+//@   ensures @at_most_one_registration quiet() || one_more()
+//@   ensures @registered_vector_is_the_one_returned result1 == nil && !quiet() ==> calls[old(len(calls))] == ev(prometheus.Registerer.Register, r.registerer, iface(*prometheus.CounterVec, result0))
+//@ func (*reporter).gaugeVec
+//@   property C17
+//@   emits
+//@   allocs
+//@   requires repWF(r)
+//@   acquires r.RWMutex
+//@   modifies r.gauges
+//@   ensures @vector_or_error (result1 == nil) == (result0 != nil)
+//@   ensures @at_most_one_registration quiet() || one_more()
+//@   ensures @registered_vector_is_the_one_returned result1 == nil && !quiet() ==> calls[old(len(calls))] == ev(prometheus.Registerer.Register, r.registerer, iface(*prometheus.GaugeVec, result0))
+//@ func (*reporter).summaryVec
+//@   property C17
+//@   emits
+//@   allocs
+//@   requires repWF(r)
+//@   acquires r.RWMutex
+//@   modifies r.timers
+//@   ensures @vector_or_error (result1 == nil) == (result0 != nil)
+//@   ensures @at_most_one_registration quiet() || one_more()
+//@   ensures @registered_vector_is_the_one_returned result1 == nil && !quiet() ==> calls[old(len(calls))] == ev(prometheus.Registerer.Register, r.registerer, iface(*prometheus.SummaryVec, result0))
+//@ func (*reporter).histogramVec
+//@   property C17
+//@   emits
+//@   allocs
+//@   requires repWF(r)
+//@   acquires r.RWMutex
+//@   modifies r.timers
+//@   ensures @vector_or_error (result1 == nil) == (result0 != nil)
+//@   ensures @at_most_one_registration quiet() || one_more()
+//@   ensures @registered_vector_is_the_one_returned result1 == nil && !quiet() ==> calls[old(len(calls))] == ev(prometheus.Registerer.Register, r.registerer, iface(*prometheus.HistogramVec, result0))
+
+// ---------------------------------------------------------------------------
+// Allocation: a usable metric in every case.  An error from get-or-register
+// goes to the configured callback exactly once and, when the callback returns,
+// the caller gets the no-op metric.
+
+//@ func (*reporter).AllocateCounter
+//@   property C17
+//@   emits
+//@   allocs
+//@   requires repWF(r)
+//@   acquires r.RWMutex
+//@   modifies r.counters
+//@   witness e error = err
+//@   ensures @usable_metric_returned result != nil && (is(result, noopMetric) || (is(result, *cachedMetric) && dyn(result, *cachedMetric) != nil && dyn(result, *cachedMetric).counter != nil))
+//@   ensures @error_goes_to_the_callback_once_then_noop is(result, noopMetric) <==> (e != nil && len(calls) >= old(len(calls)) + 1 && calls[len(calls)-1] == evn("fn.call", r.onRegisterError, e))
+//@   ensures @no_callback_without_error is(result, *cachedMetric) ==> e == nil && len(calls) <= old(len(calls)) + 1 && (len(calls) == old(len(calls)) + 1 ==> (exists c *prom.CounterVec :: calls[old(len(calls))] == ev(prometheus.Registerer.Register, r.registerer, iface(*prometheus.CounterVec, c))))
+
+//@ func (*reporter).AllocateGauge
+//@   property C17
+//@   emits
+//@   allocs
+//@   requires repWF(r)
+//@   acquires r.RWMutex
+//@   modifies r.gauges
+//@   witness e error = err
+//@   ensures @usable_metric_returned result != nil && (is(result, noopMetric) || (is(result, *cachedMetric) && dyn(result, *cachedMetric) != nil && dyn(result, *cachedMetric).gauge != nil))
+//@   ensures @error_goes_to_the_callback_once_then_noop is(result, noopMetric) <==> (e != nil && len(calls) >= old(len(calls)) + 1 && calls[len(calls)-1] == evn("fn.call", r.onRegisterError, e))
+//@   ensures @no_callback_without_error is(result, *cachedMetric) ==> e == nil && len(calls) <= old(len(calls)) + 1 && (len(calls) == old(len(calls)) + 1 ==> (exists c *prom.GaugeVec :: calls[old(len(calls))] == ev(prometheus.Registerer.Register, r.registerer, iface(*prometheus.GaugeVec, c))))
+
+//@ func (*reporter).timerConfig
+//@   property C17
+//@   requires r != nil
+//@   ensures @defaults_unless_overridden (opts == nil ==> result0 == r.timerType && same(result1, r.buckets) && result2 == r.objectives) && (opts != nil ==> result0 == opts.TimerType)
+//@   ensures @quiet quiet()
+
+//@ func (*reporter).AllocateTimer
+//@   property C17
+//@   emits
+//@   allocs
+//@   requires repWF(r)
+//@   acquires r.RWMutex
+//@   modifies r.timers
+//@   witness e error = err
+//@   ensures @usable_metric_returned result != nil && (is(result, noopMetric) || (is(result, *cachedMetric) && dyn(result, *cachedMetric) != nil && dyn(result, *cachedMetric).reportTimer != nil && (dyn(result, *cachedMetric).histogram != nil || dyn(result, *cachedMetric).summary != nil)))
+//@   ensures @error_goes_to_the_callback_once_then_noop is(result, noopMetric) <==> (e != nil && len(calls) >= old(len(calls)) + 1 && calls[len(calls)-1] == evn("fn.call", r.onRegisterError, e))
+//@   ensures @no_callback_without_error is(result, *cachedMetric) ==> e == nil && len(calls) <= old(len(calls)) + 1
+
+//@ func (*reporter).AllocateHistogram
+//@   property C17
+//@   emits
+//@   allocs
+//@   requires repWF(r) && buckets != nil && (is(buckets, tally.ValueBuckets) || is(buckets, tally.DurationBuckets))
+//@   acquires r.RWMutex
+//@   modifies r.timers
+//@   witness e error = err
+//@   ensures @usable_metric_returned result != nil && (is(result, noopMetric) || (is(result, *cachedMetric) && dyn(result, *cachedMetric) != nil && dyn(result, *cachedMetric).histogram != nil))
+//@   ensures @error_goes_to_the_callback_once_then_noop is(result, noopMetric) <==> (e != nil && len(calls) >= old(len(calls)) + 1 && calls[len(calls)-1] == evn("fn.call", r.onRegisterError, e))
+//@   ensures @no_callback_without_error is(result, *cachedMetric) ==> e == nil && len(calls) <= old(len(calls)) + 1
+
+//@ func (*reporter).RegisterTimer
+//@   property C17
+//@   emits
+//@   allocs
+//@   requires repWF(r)
+//@   acquires r.RWMutex
+//@   modifies r.timers
+//@   ensures @vector_of_the_requested_flavour_or_error result1 == nil ==> ((result0.TimerType == HistogramTimerType && result0.Histogram != nil) || (result0.TimerType == SummaryTimerType && result0.Summary != nil))
+
+// ---------------------------------------------------------------------------
+// Reporting: exactly the recorded value reaches the Prometheus object.
+
+//@ func (*cachedMetric).ReportCount
+//@   property C17
+//@   emits
+//@   requires m != nil && m.counter != nil
+//@   ensures @one_add_of_the_delta one_more() && calls[old(len(calls))] == ev(prometheus.Counter.Add, m.counter, float64(value))
+
+//@ func (*cachedMetric).ReportGauge
+//@   property C17
+//@   emits
+//@   requires m != nil && m.gauge != nil
+//@   ensures @one_set_of_the_value one_more() && calls[old(len(calls))] == ev(prometheus.Gauge.Set, m.gauge, value)
+
+//@ func (*cachedMetric).reportTimerHistogram
+//@   property C17
+//@   emits
+//@   requires m != nil && m.histogram != nil
+//@   ensures @one_observation_in_seconds one_more() && calls[old(len(calls))] == ev(prometheus.Observer.Observe, m.histogram, secs(interval))
+
+//@ func (*cachedMetric).reportTimerSummary
+//@   property C17
+//@   emits
+//@   requires m != nil && m.summary != nil
+//@   ensures @one_observation_in_seconds one_more() && calls[old(len(calls))] == ev(prometheus.Observer.Observe, m.summary, secs(interval))
+
+//@ func (*cachedMetric).ValueBucket
+//@   property C17
+//@   requires m != nil
+//@   ensures @bucket_observes_its_upper_bound is(result, cachedHistogramBucket) && dyn(result, cachedHistogramBucket).metric == m && same(dyn(result, cachedHistogramBucket).upperBound, bucketUpperBound)
+//@   ensures @quiet quiet()
+
+//@ func (*cachedMetric).DurationBucket
+//@   property C17
+//@   requires m != nil
+//@   ensures @bucket_observes_its_upper_bound_in_seconds is(result, cachedHistogramBucket) && dyn(result, cachedHistogramBucket).metric == m && same(dyn(result, cachedHistogramBucket).upperBound, secs(bucketUpperBound))
+//@   ensures @quiet quiet()
+
+//@ func (cachedHistogramBucket).ReportSamples
+//@   property C17
+//@   emits
+//@   requires b.metric != nil && b.metric.histogram != nil
+//@   ensures @one_observation_of_the_bound_per_sample len(calls) == old(len(calls)) + (value > 0 ? value : 0) && (forall j int :: 0 <= j && j < old(len(calls)) ==> calls[j] == old(calls[j])) && (forall j int :: old(len(calls)) <= j && j < len(calls) ==> calls[j] == ev(prometheus.Observer.Observe, b.metric.histogram, b.upperBound))
+//@   loop 1 invariant @count 0 <= i && (value > 0 ? i <= value : i == 0) && len(calls) == old(len(calls)) + i
+//@   loop 1 invariant @prefix forall j int :: 0 <= j && j < old(len(calls)) ==> calls[j] == old(calls[j])
+//@   loop 1 invariant @each forall j int :: old(len(calls)) <= j && j < len(calls) ==> calls[j] == ev(prometheus.Observer.Observe, b.metric.histogram, b.upperBound)
+
+//@ func NewReporter
+//@   property C17
+//@   allocs
+//@   assume @client_defaults_exist prometheus.DefaultRegisterer != nil && prometheus.DefaultGatherer != nil
+//@   ensures @reporter_ready is(result, *reporter) && repWF(dyn(result, *reporter)) && dyn(result, *reporter).counters != nil && dyn(result, *reporter).gauges != nil && dyn(result, *reporter).timers != nil && len(dyn(result, *reporter).counters) == 0 && len(dyn(result, *reporter).gauges) == 0 && len(dyn(result, *reporter).timers) == 0
+//@   ensures @configured_callback_kept opts.OnRegisterError != nil ==> same(dyn(result, *reporter).onRegisterError, opts.OnRegisterError)
+//@   ensures @timer_type_kept dyn(result, *reporter).timerType == opts.DefaultTimerType
+
+// Callback selection from configuration: "none" installs a callback that
+// returns (so the caller gets the no-op metric); the default one panics with
+// the registration error.
+//@ func (Configuration).NewReporter$3
+//@   property C17
+//@   ensures @returns_without_effect quiet()
+//@ func (Configuration).NewReporter$4
+//@   property C17
+//@   panics true
